@@ -110,6 +110,9 @@ type script struct {
 	FailOn bool `json:"fail_on,omitempty"`
 	// FirstLagMs: the first two requests are answered this late
 	FirstLagMs int `json:"first_lag_ms,omitempty"`
+	// DelayAt/DelayMs: request no. DelayAt is answered (200) only after DelayMs
+	DelayAt int `json:"delay_at,omitempty"`
+	DelayMs int `json:"delay_ms,omitempty"`
 }
 
 type session struct {
@@ -218,6 +221,9 @@ func (sv *server) ServeHTTP(w http.ResponseWriter, r *http.Request) {
 	}
 	if s.sc.ServerLag > 0 {
 		time.Sleep(time.Duration(s.sc.ServerLag) * time.Microsecond)
+	}
+	if s.sc.DelayMs > 0 && k == s.sc.DelayAt {
+		time.Sleep(time.Duration(s.sc.DelayMs) * time.Millisecond)
 	}
 	if k < 2 && s.sc.FirstLagMs > 0 {
 		// the first answers are slow (longer than the worker's initial poll interval)
@@ -365,7 +371,7 @@ func runSession(sv *server, cf base.ClientFactory, s *session, ca any) {
 		// no session shape needs more than a few seconds before its Close; a writer that sits in
 		// a Write behind a worker in its retry wait would otherwise keep an "after-write" close
 		// from ever happening (bounded: Close after 8 s at the latest)
-		watchdog := time.AfterFunc(8*time.Second, closeNow)
+		watchdog := time.AfterFunc(8*time.Second+time.Duration(sc.DelayMs)*time.Millisecond, closeNow)
 		defer watchdog.Stop()
 	}
 	var wg sync.WaitGroup
@@ -560,7 +566,7 @@ func runSession(sv *server, cf base.ClientFactory, s *session, ca any) {
 	switch closeKind {
 	case "drained", "after-fail":
 		<-writerDone
-		ok := waitFor(10*time.Second, func() bool {
+		ok := waitFor(10*time.Second+time.Duration(sc.DelayMs)*time.Millisecond, func() bool {
 			s.mu.Lock()
 			defer s.mu.Unlock()
 			if !s.allOK {
@@ -1308,6 +1314,10 @@ func main() {
 			r.ReplayIn = ""
 		}
 		ce := closeEverywhere()
+		// a data-carrying request whose 200 answer takes 11.5 s: runs from the start, concurrently
+		// with everything else (no duplication, one request in flight, however slow the answer)
+		scripts = append(scripts, script{Name: "answer-to-data-request-delayed-11s", Writes: []int{100, 30}, ReadSizes: []int{4096}, Reads: -1,
+			Resp: []int{10}, Down: 30, FailAt: -1, Close: "drained", DelayAt: 0, DelayMs: 11500})
 		scripts = append(scripts, ce[len(ce)-1]) // the lingering session first: its wait overlaps the rest
 		scripts = append(scripts, ce[:len(ce)-1]...)
 		rng := vlib.NewRng(mixSeed(r.Seed))
